@@ -3,6 +3,7 @@
 # For each: apply to /repo, run, copy the replay of the first violation next to the patch, undo. Prints a table.
 cd /verif || exit 2
 declare -A CHECKS=(
+ [C07k]="C07" [C17k]="C17" [C15k]="C15" [C20k]="C05"
  [C04j]="C04 C03" [C06j]="C06" [C08j]="C08 C18" [C10j]="C10" [C11j]="C11 C08" [C12j]="C12" [C13j]="C13" [C16j]="C16"
  [C01i]="C01 C03" [C02i]="C02" [C03i]="C03" [C05i]="C05" [C07i]="C07" [C17i]="C17" [C19i]="C17" [C20i]="C05" [C14i]="C14" [C09i]="C09" [C13i]="C13" [C18i]="C18"
  [C04h]="C04" [C09h]="C09" [C10h]="C10 C06" [C11h]="C03" [C12h]="C12" [C13h]="C13" [C14h]="C14" [C15h]="C15" [C16h]="C16" [C18h]="C18" [C06h]="C06" [C08h]="C08"
